@@ -807,7 +807,11 @@ def operator_messages(seed, n):
             # a coder remembers about the sequence from one message meets it in another operator context
             sid = [x for x in spec['raw_ids'] if x // 100000 == 3][0]
             ent['twin'] = 'q%d:%d' % (seed, i)
-            for j, ids2 in enumerate(([sid], [spec['raw_ids'][-1], sid] if spec['raw_ids'][-1] != sid else [sid, sid])):
+            # ... and the sequence wholly inside a 203YYY definition: valid when every element of it is numeric;
+            # where it holds a character element the template cannot be built by either path and fails INSIDE the
+            # sequence - whatever that leaves behind meets the sequence again in the companions
+            for j, ids2 in enumerate(([sid], [spec['raw_ids'][-1], sid] if spec['raw_ids'][-1] != sid else [sid, sid],
+                                      [203010, sid, 203255, sid, 203000])):
                 sp2 = dict(spec, raw_ids=ids2, opkind='seq-plain')
                 m2, _t2 = bufrgen.write_message(sp2)
                 if m2.find(b'BUFR', 1) < 0:
